@@ -93,7 +93,7 @@ def check_rows(rows, items, xs, first, last, n, prefix=None, keys=None, pushed=T
             return False
         if prefix:
             for k in FIXED + (['key'] if keys is not None else []):
-                a, b = r[k], r['p_' + k]
+                a, b = r[k], r['p_' + k]      # Rec stores the alias values under the generic 'p_' + name
                 if a is not b and a != b:
                     return False
         if xs is not None:
@@ -119,6 +119,9 @@ T_OBJ = cooked('<dtml-in seq prefix=p><dtml-call "rec(_)">.<dtml-else>EMPTY</dtm
 T_OBJ_NOPUSH = cooked('<dtml-in seq no_push_item><dtml-call "rec(_)">.<dtml-else>EMPTY</dtml-in>' + AFTER)
 T_TUP = cooked('<dtml-in seq prefix=p><dtml-call "rec(_)">.<dtml-else>EMPTY</dtml-in>' + AFTER)
 T_PLAIN = cooked('<dtml-in seq><dtml-call "rec(_)">.<dtml-else>EMPTY</dtml-in>' + AFTER)
+T_OBJ_US = cooked('<dtml-in seq prefix=row_v><dtml-call "rec(_)">.<dtml-else>EMPTY</dtml-in>' + AFTER)
+T_TUP_MAP = cooked('<dtml-in seq mapping prefix=p><dtml-call "rec(_)">.<dtml-else>EMPTY</dtml-in>' + AFTER)
+T_TUP_MAP_B = cooked('<dtml-in seq mapping size=9 prefix=p><dtml-call "rec(_)">.<dtml-else>EMPTY</dtml-in>' + AFTER)
 T_BATCH = cooked('<dtml-in seq mapping start=st size=sz prefix=p><dtml-call "rec(_)">.<dtml-else>EMPTY</dtml-in>' + AFTER)
 T_SSI = cooked('<!--#in seq mapping--><!--#call "rec(_)"-->.<!--#else-->EMPTY<!--#/in-->' + AFTER)
 T_EPFS = cooked('%(in seq mapping)[%(call expr="rec(_)")!.%(else)[EMPTY%(in seq)]|%(x missing=UNBOUND)s|%(sequence-item missing=UNBOUND)s|%(sequence-index missing=UNBOUND)s|%(p_item missing=UNBOUND)s', String)
@@ -178,6 +181,37 @@ def make_tuples(nmax):
             return out == 'EMPTY' + TAIL
         return out == '.' * k + TAIL and check_rows(rec.rows, objs, xs, 0, k - 1, k, prefix='p', keys=keys)
     ob.__name__ = 'ob_tuples_%d' % nmax
+    return ob
+
+
+def make_obj_prefix_us(nmax):
+    """a prefix that itself contains an underscore"""
+    def ob(n: int, a: int, b: int, c: int) -> bool:
+        k = pick(n, nmax + 1)
+        xs = [a, b, c][:k]
+        items = [O(xs[i], i) for i in range(k)]
+        rec = Rec(prefix='row_v')
+        out = T_OBJ_US(seq=items, rec=rec)
+        if k == 0:
+            return out == 'EMPTY' + TAIL
+        return out == '.' * k + TAIL and check_rows(rec.rows, items, xs, 0, k - 1, k, prefix='row_v')
+    return ob
+
+
+def make_tuples_mapping(nmax, batch):
+    """items list whose items are mappings, with the mapping option: keys split off, sequence-var-x / first-x / last-x
+    read the ITEM's x"""
+    def ob(n: int, a: int, b: int, c: int, ka: int, kb: int, kc: int) -> bool:
+        k = pick(n, nmax + 1)
+        xs = [a, b, c][:k]
+        keys = [ka, kb, kc][:k]
+        maps = [{'x': xs[i], 'i': i} for i in range(k)]
+        seq = [(keys[i], maps[i]) for i in range(k)]
+        rec = Rec(prefix='p', with_key=True)
+        out = (T_TUP_MAP_B if batch else T_TUP_MAP)(seq=seq, rec=rec)
+        if k == 0:
+            return out == 'EMPTY' + TAIL
+        return out == '.' * k + TAIL and check_rows(rec.rows, maps, xs, 0, k - 1, k, prefix='p', keys=keys)
     return ob
 
 
@@ -273,3 +307,6 @@ OBLIGATIONS.append(Ob('ssi_syntax', make_syntax(T_SSI, 3), ['0 <= n <= 3'], time
 OBLIGATIONS.append(Ob('epfs_syntax', make_syntax(T_EPFS, 3), ['0 <= n <= 3'], timeout=tier(200, 900), data='length, payloads', selectors='%(in)[ syntax'))
 OBLIGATIONS.append(Ob('nested_fault', ob_nested_fault, ['0 <= k <= 4'], timeout=tier(200, 900), data='position k of the inner element whose body raises (0/4 = none), outer payloads',
                       selectors='inner dtml-in inside dtml-try inside an outer dtml-in'))
+OBLIGATIONS.append(Ob('prefix_with_underscore', make_obj_prefix_us(3), ['0 <= n <= 3'], timeout=tier(250, 900), data='length, payloads', selectors='prefix=row_v (underscore inside the prefix): all aliases'))
+OBLIGATIONS.append(Ob('tuples_of_mappings', make_tuples_mapping(3, False), ['0 <= n <= 3'], timeout=tier(250, 900), data='length, payloads, keys', selectors='(key, mapping) pairs with the mapping option, prefix=p'))
+OBLIGATIONS.append(Ob('tuples_of_mappings_batch', make_tuples_mapping(3, True), ['0 <= n <= 3'], timeout=tier(250, 900), data='length, payloads, keys', selectors='(key, mapping) pairs, mapping, batched'))
